@@ -229,8 +229,9 @@ def run(ctx):
     cases = []
     for n in range(1, (4 if quick else 5) + 1):
         for edges in graphref.all_simple_graphs(n):
-            for seg in (False, True):
-                cases.append(dict(n=n, edges=[list(e) for e in edges], segmenting=seg, form="graph"))
+            for ev in c04.orientation_variants(edges):
+                for seg in (False, True):
+                    cases.append(dict(n=n, edges=ev, segmenting=seg, form="graph"))
     cells = 12 if quick else 16
     for h in range(1, cells + 1):
         for w in range(1, cells // h + 1):
